@@ -526,6 +526,13 @@ pub(crate) fn load_defs(ctx: &mut Context, defs: Defs) -> Vec<String> {
                         let ratio = (&input / &output).ok_or_else(|| {
                             format!("Output of property {} must not be zero", prop.name)
                         })?;
+                        // Substance::get divides by the input.
+                        if input.value == Numeric::zero() || input.value == Numeric::Float(0.0) {
+                            return Err(format!(
+                                "Input of property {} must not be zero",
+                                prop.name
+                            ));
+                        }
                         let unit = ratio.unit.clone();
                         let existing = prev.entry(unit).or_insert_with(BTreeSet::new);
                         for conflict in existing.intersection(&unique) {
